@@ -14,7 +14,7 @@ open Rx Rx.Gen.SubjectThreads
 
 def pubsT (l : List Nat) : List Rs.Pub := l.map Rs.Pub.mk
 /-- the two cells of a model state as the Rust struct -/
-def genSubject (s : Subj.State) : SubjectThreads :=
+def genSubjectT (s : Subj.State) : SubjectThreads :=
   { observers := s.observers.map pubsT, chamber := s.chamber.map pubsT }
 
 theorem forEach_emitT (g : SubjectThreads) (f : Nat → Notif) :
@@ -27,40 +27,40 @@ theorem forEach_emitT (g : SubjectThreads) (f : Nat → Notif) :
   | cons x t ih => intro out; simp [pubsT] at ih ⊢; simp [ih, List.append_assoc]
 
 theorem tieT_Subject_load (s : Subj.State) (h : s.panicked = false) :
-    SubjectThreads.load (genSubject s) = if s.load.panicked then none else some (genSubject s.load, []) := by
+    SubjectThreads.load (genSubjectT s) = if s.load.panicked then none else some (genSubjectT s.load, []) := by
   rcases s with ⟨_ | obs, _ | ch, sl, p⟩ <;> simp only at h <;> subst h <;>
-    rs_simp [SubjectThreads.load, genSubject, Subj.State.load, pubsT]
+    rs_simp [SubjectThreads.load, genSubjectT, Subj.State.load, pubsT]
 
 /-- `next`: after `load`, `p_next` on every entry of the observers list, in order; the cells stay as loaded. -/
 theorem tieT_Subject_next (s : Subj.State) (h : s.panicked = false) (v : Val) :
-    SubjectThreads.next (genSubject s) v =
+    SubjectThreads.next (genSubjectT s) v =
       if s.load.panicked then none
-      else some (genSubject s.load, (s.load.observers.getD []).map (fun i => Rs.Ev.to i (Notif.next v))) := by
+      else some (genSubjectT s.load, (s.load.observers.getD []).map (fun i => Rs.Ev.to i (Notif.next v))) := by
   rcases s with ⟨_ | obs, _ | ch, sl, p⟩ <;> simp only at h <;> subst h <;>
-    rs_simp [SubjectThreads.next, SubjectThreads.load, genSubject, Subj.State.load]
+    rs_simp [SubjectThreads.next, SubjectThreads.load, genSubjectT, Subj.State.load]
   have := forEach_emitT ⟨some (pubsT obs ++ pubsT ch), some []⟩ (fun _ => Notif.next v) (obs ++ ch) []
   simp [pubsT] at this ⊢
   simp [this]
 
 /-- `error` / `complete`: load, take the list (finished from now on), every entry is handed the terminal. -/
 theorem tieT_Subject_error (s : Subj.State) (h : s.panicked = false) (e : Err) :
-    SubjectThreads.error (genSubject s) e =
+    SubjectThreads.error (genSubjectT s) e =
       if s.load.panicked then none
-      else some (genSubject { s.load with observers := none },
+      else some (genSubjectT { s.load with observers := none },
                  (s.load.observers.getD []).map (fun i => Rs.Ev.to i (Notif.error e))) := by
   rcases s with ⟨_ | obs, _ | ch, sl, p⟩ <;> simp only at h <;> subst h <;>
-    rs_simp [SubjectThreads.error, SubjectThreads.load, genSubject, Subj.State.load]
+    rs_simp [SubjectThreads.error, SubjectThreads.load, genSubjectT, Subj.State.load]
   have := forEach_emitT ⟨none, some []⟩ (fun _ => Notif.error e) (obs ++ ch) []
   simp [pubsT] at this ⊢
   simp [this]
 
 theorem tieT_Subject_complete (s : Subj.State) (h : s.panicked = false) :
-    SubjectThreads.complete (genSubject s) =
+    SubjectThreads.complete (genSubjectT s) =
       if s.load.panicked then none
-      else some (genSubject { s.load with observers := none },
+      else some (genSubjectT { s.load with observers := none },
                  (s.load.observers.getD []).map (fun i => Rs.Ev.to i Notif.complete)) := by
   rcases s with ⟨_ | obs, _ | ch, sl, p⟩ <;> simp only at h <;> subst h <;>
-    rs_simp [SubjectThreads.complete, SubjectThreads.load, genSubject, Subj.State.load]
+    rs_simp [SubjectThreads.complete, SubjectThreads.load, genSubjectT, Subj.State.load]
   have := forEach_emitT ⟨none, some []⟩ (fun _ => Notif.complete) (obs ++ ch) []
   simp [pubsT] at this ⊢
   simp [this]
@@ -74,34 +74,34 @@ theorem model_terminal_unfoldT (s : Subj.State) (n : Notif) (h : s.load.panicked
   cases s.load.observers <;> rfl
 
 theorem tieT_Subject_unsubscribe (s : Subj.State) :
-    SubjectThreads.unsubscribe (genSubject s) = some (genSubject s.unsubscribe, []) := by
-  rs_simp [SubjectThreads.unsubscribe, genSubject, Subj.State.unsubscribe]
+    SubjectThreads.unsubscribe (genSubjectT s) = some (genSubjectT s.unsubscribe, []) := by
+  rs_simp [SubjectThreads.unsubscribe, genSubjectT, Subj.State.unsubscribe]
 
 theorem tieT_Subject_subscribe (s : Subj.State) (o : Rs.Obs) (script : List Subj.Act) (log0 : List Notif) :
-    SubjectThreads.actual_subscribe (genSubject s) o ⟨s.slots.length⟩ = some (genSubject (s.subscribe script log0), []) := by
+    SubjectThreads.actual_subscribe (genSubjectT s) o ⟨s.slots.length⟩ = some (genSubjectT (s.subscribe script log0), []) := by
   rcases s with ⟨obs, _ | ch, sl, p⟩ <;>
-    rs_simp [SubjectThreads.actual_subscribe, genSubject, Subj.State.subscribe, pubsT]
+    rs_simp [SubjectThreads.actual_subscribe, genSubjectT, Subj.State.subscribe, pubsT]
 
 theorem tieT_Subject_retain (s : Subj.State) :
-    SubjectThreads.retain (genSubject s) (fun i => !Subj.aliveAt s.slots i) = some (genSubject s.retain, []) := by
+    SubjectThreads.retain (genSubjectT s) (fun i => !Subj.aliveAt s.slots i) = some (genSubjectT s.retain, []) := by
   rcases s with ⟨_ | obs, ch, sl, p⟩ <;>
-    rs_simp [SubjectThreads.retain, genSubject, Subj.State.retain, pubsT, List.filter_map, Function.comp_def]
+    rs_simp [SubjectThreads.retain, genSubjectT, Subj.State.retain, pubsT, List.filter_map, Function.comp_def]
 
-theorem tieT_Subject_len (s : Subj.State) : SubjectThreads.len (genSubject s) = s.len? := by
-  rcases s with ⟨_ | obs, _ | ch, sl, p⟩ <;> rs_simp [SubjectThreads.len, genSubject, Subj.State.len?, pubsT]
+theorem tieT_Subject_len (s : Subj.State) : SubjectThreads.len (genSubjectT s) = s.len? := by
+  rcases s with ⟨_ | obs, _ | ch, sl, p⟩ <;> rs_simp [SubjectThreads.len, genSubjectT, Subj.State.len?, pubsT]
 
 theorem tieT_Subject_is_empty (s : Subj.State) (h : s.len?.isSome) :
-    SubjectThreads.is_empty (genSubject s) = some s.isEmpty := by
+    SubjectThreads.is_empty (genSubjectT s) = some s.isEmpty := by
   rcases s with ⟨_ | obs, _ | ch, sl, p⟩ <;> simp [Subj.State.len?] at h <;>
-    rs_simp [SubjectThreads.is_empty, genSubject, Subj.State.isEmpty, pubsT]
+    rs_simp [SubjectThreads.is_empty, genSubjectT, Subj.State.isEmpty, pubsT]
   cases obs <;> simp
 
 theorem tieT_Subject_finished_closed (s : Subj.State) (d : Bool) (c : Nat → Bool) :
-    SubjectThreads.is_finished (genSubject s) d = s.isFinished ∧ SubjectThreads.is_closed (genSubject s) c = s.isClosed := by
+    SubjectThreads.is_finished (genSubjectT s) d = s.isFinished ∧ SubjectThreads.is_closed (genSubjectT s) c = s.isClosed := by
   rcases s with ⟨_ | obs, ch, sl, p⟩ <;>
-    rs_simp [SubjectThreads.is_finished, SubjectThreads.is_closed, genSubject, Subj.State.isFinished, Subj.State.isClosed]
+    rs_simp [SubjectThreads.is_finished, SubjectThreads.is_closed, genSubjectT, Subj.State.isFinished, Subj.State.isClosed]
 
-theorem tieT_Subject_init : SubjectThreads.init = genSubject Subj.State.init := by
-  rs_simp [SubjectThreads.init, genSubject, Subj.State.init, pubsT]
+theorem tieT_Subject_init : SubjectThreads.init = genSubjectT Subj.State.init := by
+  rs_simp [SubjectThreads.init, genSubjectT, Subj.State.init, pubsT]
 
 end Rx.GenTie
